@@ -90,6 +90,7 @@ type pendInfo struct {
 	tmp   *Node
 	done  bool
 	file  *os.File
+	replaceOnClose bool
 }
 
 var (
@@ -1023,6 +1024,18 @@ func WithRoot(r *os.Root) renameio.Option {
 	return nil
 }
 
+// further renameio options: recorded for the next NewPendingFile
+var pendingReplaceOnClose bool
+
+func WithReplaceOnClose() renameio.Option              { pendingReplaceOnClose = true; return nil }
+func WithPermissions(perm fs.FileMode) renameio.Option { return nil }
+func WithExistingPermissions() renameio.Option         { return nil }
+func WithTempDir(dir string) renameio.Option {
+	// a temporary directory outside the root handle is an ambient path
+	ambient("renameio.WithTempDir", dir, true)
+	return nil
+}
+
 // NewPendingFile models renameio.NewPendingFile(path, WithRoot(root)): a separately
 // named temporary file (name not in any file list) in the same root.
 func NewPendingFile(p string, opts ...renameio.Option) (*renameio.PendingFile, error) {
@@ -1052,7 +1065,8 @@ func NewPendingFile(p string, opts ...renameio.Option) (*renameio.PendingFile, e
 	ri.fs.Nodes = append(ri.fs.Nodes, tmp)
 	of := newFile(ri.fs, tmp, true)
 	pf := &renameio.PendingFile{File: of}
-	pendings[pf] = &pendInfo{fs: ri.fs, root: ri, dest: full, tmp: tmp, file: of}
+	pendings[pf] = &pendInfo{fs: ri.fs, root: ri, dest: full, tmp: tmp, file: of, replaceOnClose: pendingReplaceOnClose}
+	pendingReplaceOnClose = false
 	return pf, nil
 }
 
@@ -1067,6 +1081,19 @@ func PendingCleanup(pf *renameio.PendingFile) error {
 	pi.fs.log(Event{Op: "cleanup", Path: pi.dest})
 	pi.tmp.Gone = true
 	pi.done = true
+	return nil
+}
+
+// PendingClose models (*renameio.PendingFile).Close: with WithReplaceOnClose it is the
+// atomic replace, otherwise it only closes the temporary file.
+func PendingClose(pf *renameio.PendingFile) error {
+	pi := pendings[pf]
+	if pi == nil {
+		return fs.ErrInvalid
+	}
+	if pi.replaceOnClose && !pi.done {
+		return PendingCloseAtomicallyReplace(pf)
+	}
 	return nil
 }
 
